@@ -164,7 +164,8 @@ CHECKS["C11"] = dict(
           "asis_cache_stale / asis_kd_radius_unit are the proved counterexamples for the snapshot (repaired by fixes 44934d88, "
           "6a2163a0, 8b521b60). Tie to the code: differential run through Grid.get_ball_tree/get_kd_tree(...).query/query_radius on "
           "generated grids (antimeridian, poles, single/batched, degrees/radians, k in 1..n, r>=0 incl. >180 deg, guards, all "
-          "ordered pairs + sampled longer histories of differently parameterised requests); the Lean driver computes the model "
+          "ordered pairs + sampled longer histories of differently parameterised requests, and all A,B,A / A,B,C,A element-kind "
+          "switches per (tree, system, metric) without reconstruct, with a Lean-judged k-NN and radius query after EVERY request); the Lean driver computes the model "
           "distances at Float and judges the implementation's indices with the decidable spec; reported distances are a float "
           "clause (rel. tol 1e-7); near-ties (<1e-9) are dropped and counted."),
     note=_TB + "Modelled, not verified: sklearn BallTree/KDTree (assumed = brute force, validated per case), IEEE/libm "
@@ -188,11 +189,13 @@ CHECKS["C12"] = dict(
           "sample, near-coincident and polar grids) x 3 source kinds x 3 destinations x 2 coordinate types x ranks 1..3 x k in 2..n x 6 powers: "
           "the Lean driver brute-forces the (k) nearest over the grids' reported points, discards near-ties (<1e-9, counted) and evaluates "
           "nnSpecB / convexity (withinB) on the implementation's output; one-hot data expose the implementation's weights, judged by weightsOkB "
-          "(support = the k nearest, >=0, sum 1, non-increasing) and compared with the model."),
+          "(support = the k nearest, >=0, sum 1, non-increasing) and compared with the model. Histories (remap -> change the source's / "
+          "destination's node, face or edge coordinates through the public setters or construct_face_centers -> remap again, same and other "
+          "coordinate type, all three source kinds) are judged against the coordinates the grids report at each step."),
     note=_TB + "Modelled, not verified: sklearn BallTree (assumed = brute force, validated per case), haversine = great-circle angle (formula "
          "identity not proved here; see C11), IEEE rounding (tolerances 1e-9 convexity/weights, 1e-6 model agreement), NumPy fancy "
-         "indexing/broadcasting, the literal eps=1e-6 is a model parameter (theorems hold for every eps>0). One known finding is rooted in "
-         "coordinates.py (C04).",
+         "indexing/broadcasting, the literal eps=1e-6 is a model parameter (theorems hold for every eps>0). Two findings rooted in coordinates.py (degrees passed to a radians function) "
+         "were repaired there (dae7aac7, a9b70212).",
     technique="Lean 4 theorems over a generic ordered-field model + differential correspondence with Lean-evaluated specs and Lean brute-force oracle",
 )
 
@@ -276,4 +279,89 @@ CHECKS["C19"] = dict(
          "aliasing semantics (zero-copy wrapping, Dataset.copy(deep=True), drop_vars), the mapping of real API calls to model operations. Zero-copy "
          "wrapping of input coordinate arrays is not judged (the statement forbids modifying inputs, not reading them in place). Differential-test level only.",
     technique="Lean 4 theorems (all heaps, all histories) + verified graph checkers run on the real object graph + differential correspondence",
+)
+
+CHECKS["C07"] = dict(
+    text=("Lean theorems over the model Encode (transcription of _encode_ugrid + the module-level topology template, _encode_exodus, "
+          "_encode_scrip, the readers' decode side, and a history machine over several grids): topology_closed (every name in the "
+          "emitted grid_topology is a variable/dimension of the export, for ANY set of present variables; re-checked by decide against "
+          "the regenerated conventions/ugrid.py dictionaries), ugrid_rt / ugrid_serialisable (readable with the same table and nodes, "
+          "writable whatever attributes travel), template_invariant + encode_history_free + history_ugrid_rt (induction over ANY history "
+          "of materialise/encode operations on any grids in any formats: an export depends only on the grid itself), derived_then_encode "
+          "(any list of extra variables), exodus_rt_perm (any size mix / number of blocks: no raise, rectangular blocks, faces back as a "
+          "multiset) and exodus_rt_single_block (the encoder as it stands, with the reader as it stands, returns the table exactly), "
+          "scrip_rt / scrip_rt_uniform (corner positions in order; np.unique round trip; trailing repeats read as padding). Each defect of the "
+          "snapshot is a switch of Cfg with a decide-proved as-is counterexample (six repaired by fix commits). Tie: generated histories over "
+          "1-3 grids (lon/lat-only and Cartesian-only sources, sizes 3..10, partial/global) run on the real code; every export is judged by "
+          "the Lean predicates, re-opened with ux.open_grid directly and after to_netcdf to a scratch file and compared face-for-face by "
+          "Lean's RoundTripOK, and the whole history is compared with the Lean model's run; every reported failing history is re-confirmed "
+          "in a fresh interpreter."),
+    note=_TB + "Modelled, not verified: netCDF4/xarray serialisation, Dataset.rename/copy, NumPy indexing, float conversions "
+         "(lon/lat<->xyz are parameters with a stated inverse hypothesis); positions are compared through the nearest original node within 1e-7. "
+         "Round trips are stated for the readers named in the theorems (all-blocks Exodus reader; SCRIP reader reading trailing repeats as "
+         "padding). Known finding: Exodus element types exist only for faces of 2..8 corners (a 9-gon raises KeyError).",
+    technique="Lean 4 theorems (history induction, regenerated tables) over a hand model with repair switches + differential correspondence with Lean-evaluated spec",
+)
+
+CHECKS["C05"] = dict(
+    text=("Two ties. (G) harness/translate_quad.py CALLS the code's get_tri_quadratureDG/get_gauss_quadratureDG for every order and regenerates "
+          "Gen/QuadTables.lean as exact rationals; Props/C05 re-proves on every run (decide +kernel, integers, no axioms; restated in Q as "
+          "tri_exact_rat/gauss_exact_rat) that every supported rule (triangular 1,4,8,10,12; gaussian 1..10) has weights summing to 1, positive "
+          "weights and integrates every monomial up to its degree (tri: order; gauss: 2n-1, n=9 is a Lobatto rule: 15) to 1e-12 in the coordinates "
+          "the code evaluates - a changed digit in any order stops a theorem. (T) Lean theorems about the model Model/Area.lean (transcription of "
+          "area.py, generic over the field) for ALL corner lists/tables/numberings: area_nonneg(_tables), area_face_local/area_renumber/"
+          "area_face_order, area_rotation (any orthogonal R), area_latlon_eq_xyz, area_split (exact additivity along a diagonal from the start "
+          "corner), fan_shift (start-corner independence of any cyclic T with the flip identity), fan_shift_approx (quadrature within eps of such "
+          "a T => start-corner dependence <= 2(n-2)eps), cache_history/cache_eq_fresh (any call history). The model run at Float by the driver "
+          "equals Grid.compute_face_areas/face_areas/calculate_total_face_area to rel 1e-11 for every rule, order and both inputs; tables are "
+          "bit-identical to the live ones. TESTED, not proved (oracle: exact spherical excess in the Lean driver, faces re-checked by the Lean "
+          "predicate wfFace): accuracy 1e-6/1e-4/1e-2 at <=10/30/65 deg with the default rule, convergence with order, sum = 4*pi, rotation/"
+          "renumbering/start-corner/subdivision at Float."),
+    note=_TB + "Modelled, not verified: IEEE rounding, libm sin/cos/sqrt/atan2, numba JIT, np.sum; the flip identity of exact spherical area is a "
+         "hypothesis of fan_shift. The snapshot's compute_face_areas(latlon=False) dropped z (Lean: asis_cartesian_area_zero, "
+         "asis_violates_input_independence); repaired by fix afa9bf59. float32 coordinates raise a numba TypingError (outside the quantifier, "
+         "reported only).",
+    technique="Lean 4: regenerated-table theorems (decide +kernel) + theorems over a hand model + differential correspondence with a Lean-evaluated Float spec",
+)
+
+CHECKS["C13"] = dict(
+    text=("Lean theorems over Model/Bounds.lean (transcription of _insert_pt_in_latlonbox, _get_latlonbox_width, both loops of "
+          "_populate_face_latlon_bound, extreme_gca_latitude, _pole_point_inside_polygon): box_contains_all_inserted (ANY sequence of "
+          "inserted points incl. pole points stays inside the periodic box), lat_encloses_nodes / pole_loop_encloses_nodes (every corner "
+          "of ANY edge list is enclosed by the loops), lat_bounds_attained (each latitude bound IS an inserted corner latitude or "
+          "arc extreme: tight), circle_apex_bound, extreme_param_stationary (d_a_max is the unique stationary parameter), apex_attains_bound, "
+          "arc_le_endpoints/arc_ge_endpoints, extreme_encloses_arc (exact-arithmetic extreme_gca_latitude encloses EVERY point of EVERY arc "
+          "shorter than half a turn) and the capstone lat_encloses_every_arc_point. pole_face_partial: a face FLAGGED by the parity count gets "
+          "the pole latitude and [0,2pi]. As-is counterexamples decided in Lean: asis_skips_corner, asis_pole_corner_longitude (both repaired by "
+          "fixes 1bade8c0, 55464bc2), asis_pole_missed, asis_false_pole (known findings). Tie: Grid.bounds vs the Lean transcription run at Float on "
+          "generated convex 3..8-gons (anywhere, poleward-bulging edges, prime/anti-meridian, corner at a pole, pole enclosed, either start), "
+          "and the verdict on the implementation's box is a Lean-evaluated oracle independent of the helpers (64 samples per edge + analytic "
+          "apex, orientation determinants for the pole, largest-gap longitude hull; 1e-9 rad)."),
+    note=_TB + "Only tested (not proved): that the parity flag of _pole_point_inside_polygon agrees with 'pole strictly inside' (it does not: "
+         "2 known findings), longitude minimality when the face wraps through 0 (insert_minimal_partial covers the non-wrapping case), "
+         "attainment for pole faces, IEEE rounding, the ERROR_TOLERANCE clip/pole snap, np.mod/deg2rad, gca_gca_intersection/point_within_gca "
+         "(idealised in the model, C14). Corners within 0.06 deg of a pole (not on it) and poles within 1e-6 of the boundary are not generated.",
+    technique="Lean 4 theorems (field/real algebra, induction over edge lists) over a hand model + differential correspondence with a Lean-evaluated sampling oracle",
+)
+
+CHECKS["C10"] = dict(
+    text=("Lean theorems UxVerif.C10.step_preserves_inv / program_inv / program_inv_every_prefix: for EVERY table of constructor paths, heap of "
+          "grids, start state and program of ANY length over the property's operation list (18 op constructors incl. uxarray's isel on grid "
+          "dims, integrate, gradient, difference, topological aggregation, remap, get_dual), every in-scope operation built through a "
+          "re-attaching path keeps 'UxDataArray and live grid attached and every node/edge/face dimension has that grid's element count'; "
+          "same_grid (same grid OBJECT for all but deep copy/grid-isel/remap/get_dual), deep_copy_independent, model_meets_spec + specB_iff (the "
+          "decidable step spec is what the driver evaluates on the implementation's result after EVERY prefix). The full statement is false "
+          "for the code as it stands and is kept as program_inv_asis_partial with Lean counterexamples asis_* (where/clip/fillna/astype/NumPy "
+          "ufuncs/rolling -> plain DataArray; positional indexing of a grid dimension keeps the un-sliced grid; get_dual on meshes with nodes of "
+          "<3 faces) = recorded known findings; isel with a positional indexers dict was a genuine defect (fix 5ae294e3). Tie: differential run "
+          "(directed single-step program per method variant and centring + random programs depth <= 6, ~1.1k judged steps quick / ~39k "
+          "thorough, on 3 grids, 5 dtypes, coords), model vs implementation on (type, grid identity/store, dims) after every prefix; "
+          "values/dtype/dims vs the same program on a plain xarray.DataArray."),
+    note=_TB + "Observed, not proved: which constructor path each public xarray method takes (table measured each run by wrapping "
+         "_replace/_copy/_construct_direct/__init__ in-process and written to the evidence), value equality with plain xarray (NumPy equality), "
+         "Grid.__eq__, store sharing via np.shares_memory, the element counts of grids built by Grid.isel/get_dual (enter as operation "
+         "parameters). The UxDataset half of the anchors (core/dataset.py) cannot be exercised: the installed xarray rejects Dataset(Dataset). "
+         "uxarray's own ops are generated only where the model defines them (one grid dimension, last; no coordinate along it; not on "
+         "sub-grids) - raises outside that domain are counted, not judged.",
+    technique="Lean 4 invariant theorem over an operation algebra with an observed constructor-path table + differential correspondence with Lean-evaluated step spec",
 )
